@@ -5,7 +5,9 @@
    stepping; the other operations by the correspondence run (per-identity ledger on both sides). *)
 From Coq Require Import ZArith List Bool Lia.
 From MV Require Import Ast Eval Scalar Machine Model Policy.
-From MV.Proofs Require Import Arith Logic Prim View OpsLocal Guards Grow Drops DrainIt CapHistory Core Refine Life IntoIt Clone Append SplitOff DrainAbs IntoAbs Extend RetainSpec RetainAbs History LifeBulk.
+From MV.Proofs Require Import Arith Logic Prim View OpsLocal Guards Grow Drops DrainIt CapHistory Core Refine Life IntoIt Clone Append SplitOff DrainAbs IntoAbs Extend RetainSpec RetainAbs History LifeBulk DrainGuardAt SourceSpecs.
+From MV Require Import DrainAt EquivDefs Prims EquivDropGuard.
+Close Scope string_scope.
 Import ListNotations.
 Open Scope Z_scope.
 
@@ -264,3 +266,67 @@ Theorem C02_whole_life_with_retain_and_extend :
   post (life_bulk cfg ncap v os s) (fun _ s' => Q s') Q.
 Proof. exact whole_life_bulk_nothing_lost. Qed.
 Print Assumptions C02_whole_life_with_retain_and_extend.
+
+(* END TO END for the Drop code of Drain's guard (src/impl/drain.rs, `impl Drop for DropGuard`): the
+   regenerated body -- the `for` loop over what is left of the window (each element handed out by
+   `next()` and dropped) and the move of the tail back behind the prefix -- evaluated by the IR semantics
+   on a well-formed Drain object of the world leaves the vector as prefix ++ suffix with every element of
+   the window destroyed exactly once and nothing else touched (DrainIt.drain_gone).  Tie:
+   EquivDropGuard.v (induction over the loop's fuel); theorem: Proofs/DrainGuardAt.v.  `Panic` = a
+   destructor panicked inside this cleanup (Rust aborts the process there). *)
+Theorem C02_the_source_of_the_drain_guard_destroys_the_window_once :
+  forall cfg ncap, cfg_ok cfg -> needs_drop cfg = true ->
+  forall s i0 d b bl off i j r F,
+  iter_get i0 s = (Val (IDrain d), s) -> drain_inv cfg s d b bl off i j r ->
+  NoDup (window bl i j) -> (forall e, In e (window bl i j) -> ledger s e = Live) ->
+  (S (Z.to_nat (j - i)) <= F)%nat ->
+  match run_guard_drop cfg ncap (FUEL + F) i0 s with
+  | (Norm _, s') => drain_gone cfg s s' d b bl i j r
+  | (Panic, _) | (Fail FAbort, _) | (Fail (FAllocAbort _ _), _) => True
+  | _ => False
+  end.
+Proof. exact dropguard_drop_source. Qed.
+Print Assumptions C02_the_source_of_the_drain_guard_destroys_the_window_once.
+
+(* the same statement about the function the body is tied to, with the fuel bound explicit *)
+Theorem C02_the_drain_guard_on_the_object :
+  forall cfg, cfg_ok cfg -> needs_drop cfg = true ->
+  forall fuel s i0 d b bl off i j r,
+  iter_get i0 s = (Val (IDrain d), s) ->
+  drain_inv cfg s d b bl off i j r -> (Z.to_nat (j - i) < fuel)%nat ->
+  NoDup (window bl i j) -> (forall e, In e (window bl i j) -> ledger s e = Live) ->
+  post (drain_guard_at cfg fuel i0 s) (fun _ s' => drain_gone cfg s s' d b bl i j r) (fun _ => True).
+Proof. exact drain_guard_at_spec. Qed.
+Print Assumptions C02_the_drain_guard_on_the_object.
+
+(* non-vacuity: a concrete state -- an (8,8) element type, a vector whose block holds 0 (the prefix),
+   1 (the one element left in the window) and 2 (the tail), and a Drain object over it -- meets the
+   hypotheses of the two theorems above; on it the regenerated body ends normally with the vector [0; 2]
+   and element 1 destroyed *)
+Example C02_drain_guard_hypotheses_satisfiable :
+  let cfg := {| esz := 8; ealign := 8; needs_drop := true; release := false |} in
+  let bl := {| b_size := 48; b_align := 8; h_len := 1; h_cap := 3; h_align := 8;
+               slots := fun k => if k =? 0 then Init 0 else if k =? 1 then Init 1 else if k =? 2 then Init 2 else Uninit;
+               b_live := true |} in
+  let d := {| d_vec := 0%nat; d_pos := PElt 0 24 1; d_end := PElt 0 24 2; d_rpos := PElt 0 24 2; d_rem := 1; d_fill := None |} in
+  let s := {| heap := [bl]; vecs := [Some (At 0 0)]; iters := [Some (IDrain d)];
+              ledger := fun e => if e <? 3 then Live else Fresh;
+              payload := fun _ => 0; next_elem := 3; drop_panics := []; clone_panics := []; alloc_fail := None;
+              alloc_limit := 1073741824; events := [] |} in
+  cfg_ok cfg /\ iter_get 0 s = (Val (IDrain d), s) /\ drain_inv cfg s d 0 bl 24 1 2 2 /\
+  NoDup (window bl 1 2) /\ (forall e, In e (window bl 1 2) -> ledger s e = Live) /\
+  (match run_guard_drop cfg (fun _ => None) 200 0 s with
+   | (o, s') => (o, fst (deref cfg 0 s'), ledger s' 1, ledger s' 0, ledger s' 2)
+   end) = (Norm VUnit, Val [0; 2], Dropped, Live, Live).
+Proof.
+  cbv zeta. split; [repeat split; reflexivity|]. split; [reflexivity|].
+  split.
+  { constructor; try reflexivity.
+    - split; reflexivity.
+    - constructor; try reflexivity; simpl; lia.
+    - simpl. lia.
+    - intros k Hk. simpl in Hk. assert (k = 0 \/ k = 1 \/ k = 2) as [->|[->| ->]] by lia; eexists; reflexivity. }
+  split; [vm_compute; repeat constructor; simpl; intuition lia|].
+  split; [intros e He; vm_compute in He; destruct He as [<-|[]]; reflexivity|].
+  vm_compute. reflexivity.
+Qed.
